@@ -59,6 +59,12 @@ func c15Cfgs() []*bsCfg {
 		ld(base("loading-nottl", 1, []bsOp{L(1), L(2), L(3), S(1), D(1)}), 0),
 		ld(base("loading-ttl", 1, []bsOp{L(1), L(2), L(3), T(1), D(1)}), long),
 		ld(base("loading-m2", 2, []bsOp{L(1), L(2), L(3), T(2), D(2)}), long),
+		// short loader TTL and a clock advance: a demoted copy expires in the secondary tier, is reloaded, evicted again
+		func() *bsCfg {
+			c := ld(base("loading-expiry", 1, []bsOp{L(1), L(2), L(3)}), sec)
+			c.Advs, c.MaxAdv, c.Depth, c.OpsPer = []int64{2 * sec}, 1, 6, 5
+			return c
+		}(),
 		// fault scripts (expanded by c15FaultScripts)
 		base("fault-simple", 1, []bsOp{T(1), T(2), T(3), H(1), D(1)}),
 		ld(base("fault-loading", 2, []bsOp{L(1), L(2), L(3), T(1), D(1)}), long),
